@@ -95,6 +95,63 @@ func c18(c *Ctx) {
 			}
 		}
 	}
+	// "group parameters that pass the validity checks": whatever else the check of (g, p) tests, it admits every
+	// generator the specification allows
+	r.Rule("R18.G", "for g = 2..7 the group check dhHandshakeCheckConfigIsError can answer false (not an error) when its tests of g against constants are decided for that value", 6)
+	if f := c.fn("R18.G", load.SrpPkg, "", "dhHandshakeCheckConfigIsError"); f != nil && len(f.Params) >= 1 {
+		isG := func(v ssa.Value) bool {
+			for {
+				cv, ok := v.(*ssa.Convert)
+				if !ok {
+					break
+				}
+				v = cv.X
+			}
+			return v == ssa.Value(f.Params[0])
+		}
+		for g := int64(2); g <= 7; g++ {
+			g := g
+			decide := func(i *ssa.If) (int, bool) {
+				cd, ok := an.Classify(i)
+				if !ok || (cd.Kind != "eq" && cd.Kind != "ord") {
+					return 0, false
+				}
+				x, y, rel := cd.X, cd.Y, cd.Rel
+				k, isK := an.ConstInt(y)
+				if !(isG(x) && isK) {
+					k2, isK2 := an.ConstInt(x)
+					if !(isK2 && isG(y)) {
+						return 0, false
+					}
+					k = k2
+					rel = map[string]string{"<": ">", "<=": ">=", ">": "<", ">=": "<=", "": ""}[rel]
+				}
+				if cd.Kind == "eq" {
+					return cd.EdgeWhen(g == k).Succ, true
+				}
+				holds := map[string]bool{"<": g < k, "<=": g <= k, ">": g > k, ">=": g >= k}[rel]
+				if holds {
+					return 0, true
+				}
+				return 1, true
+			}
+			reach, exec := an.ReachExec(f, nil, decide)
+			admits := false
+			for _, b := range f.Blocks {
+				if !reach[b] {
+					continue
+				}
+				for _, in := range b.Instrs {
+					if ret, ok := an.AsReturn(in); ok && len(ret.Results) == 1 {
+						if v := boolAlong(an.RetVal(ret, 0), exec, 0); v != "true" {
+							admits = true
+						}
+					}
+				}
+			}
+			r.Check(admits, "R18.G", sprintf("generator:g=%d", g), c.pos(f.Pos()), sprintf("with the tests of g decided for g = %d every reachable return answers true (invalid): an account on a group with this generator gets no SRP answer", g))
+		}
+	}
 	r.Rule("R18.B", "no function of package srp writes through a []byte parameter (salts, the password, B come from the caller's objects and are used again): no element store, copy, append onto it, nor a callee that does", 8)
 	c.paramsUntouched("R18.B", load.SrpPkg, nil)
 	r.Rule("R18.R", "the SRP ephemeral is drawn from crypto/rand", 1)
